@@ -25,7 +25,8 @@ def install_markers():
         try:
             src = self.ops[0].value_type
             dst = self.value_type
-            if src._signed and not dst._signed and dst._bit_width > src._bit_width and txt.startswith(f"CAST({dst._bit_width}, IL_FALSE, "):
+            sw, dw = int(src._bit_width), int(dst._bit_width)  # mem_store builds types whose width is a str token
+            if src._signed and not dst._signed and dw > sw and txt.startswith(f"CAST({dw}, IL_FALSE, "):
                 return "CAST_KF_cast_sext(" + txt[len("CAST("):]
         except Exception:
             pass
